@@ -80,6 +80,9 @@ def startup_case(ctx, faults, script_fault, sanity_ok, sanity_mode='exit1'):
                 fh.write('#!/bin/sh\nexit %d\n' % (0 if sanity_ok else 1))
             elif sanity_mode == 'also':
                 fh.write('#!/bin/sh\nexit 7\n')          # the --also-interesting code is NOT "interesting"
+            elif sanity_mode == 'noise':
+                # an uninteresting input; the test quotes bytes that are not valid UTF-8 (a compiler citing a Latin-1 source line)
+                fh.write('#!/bin/sh\nprintf \'\\377\\376 caf\\351 \\303\\050\\n\'\nprintf \'\\200\\201 error\\n\' >&2\nexit 1\n')
             else:
                 # an uninteresting input whose test also writes to its own copy of the input
                 fh.write('#!/bin/sh\nfor f in tc0.c sub/tc1.c tc2.c; do [ -f "$f" ] && echo scribble >> "$f"; done\nexit 1\n')
@@ -176,7 +179,7 @@ def explore(ctx):
             cases.append((coq_env(faults, script_fault, sanity_ok, names), out))
     # an uninteresting input must be refused also when the test answers with the --also-interesting code, and a test
     # that writes to its copy of the input must not reach the user's files (same file system: TMPDIR next to the work dir)
-    for mode in ('also', 'scribble'):
+    for mode in ('also', 'scribble', 'noise'):
         for faults in (('ok',), ('ok', 'ok'), ('ok', 'ok', 'ok')):
             res, names = startup_case(ctx, faults, 'ok', False, sanity_mode=mode)
             ctx.evaluations += 1
@@ -184,7 +187,7 @@ def explore(ctx):
             ctx.count('startup:InsaneTestCaseError:' + mode)
             rep = {'faults': list(faults), 'script': 'ok', 'sanity_ok': False, 'sanity_mode': mode}
             if res['exc'] != 'InsaneTestCaseError':
-                ctx.violation(f'wrong-error:InsaneTestCaseError:got-{res["exc"]}', f'uninteresting input, test {"exits with the also-interesting code 7" if mode == "also" else "exits 1 after appending to its input"}: expected InsaneTestCaseError, got {res["exc"]}', rep)
+                ctx.violation(f'wrong-error:InsaneTestCaseError:got-{res["exc"]}', f'uninteresting input, test {"exits with the also-interesting code 7" if mode == "also" else "exits 1 after printing bytes that are not UTF-8" if mode == "noise" else "exits 1 after appending to its input"}: expected InsaneTestCaseError, got {res["exc"]}', rep)
             if not res.get('unchanged'):
                 ctx.violation('startup-side-effect', f'uninteresting input ({mode}): the working directory changed although start-up was refused', rep)
     ctx.sample({'misuse': ['ok', 'unreadable'], 'expected': 'InvalidTestCaseError naming sub/tc1.c, access R_OK'})
@@ -207,14 +210,14 @@ def pass_arguments(ctx):
              'long z;\n(w ? y : z) + g(y);\n']        # nothing a pass could work on (no digit, no hex letter): the argument is still wrong
     for name, text in [(n, t) for n in ('balanced', 'ints', 'special', 'ternary', 'peep', 'indent') for t in texts]:
         cls = CVise.pass_name_mapping[name]
-        for arg in ['bogus-arg', None]:
+        for arg in ['bogus-arg', None, ['a'], {'mode': 'a'}, 3, '']:      # a pass-group file is JSON: the argument may be any JSON value
             p = cls(arg, {'clang-format': '/bin/true'})
             p.max_transforms = None
             sc = {'files': [('t.c', text)], 'rules': [([], 0)], 'passes': [], 'cfg': {'N': 2, 'no_cache': True}, 'sched': [1, 1, 1, 1, 1, 1]}
             o = driver.run_scenario(sc, ctx.tmp, real_passes=[p])
             ctx.evaluations += 1
             ctx.count('pass-argument:' + name)
-            ctx.nontriv(('arg', name, arg))
+            ctx.nontriv(('arg', name, repr(arg)))
             rep = {'pass': name, 'arg': arg}
             ps = o.passes[0]
             e = ps['exc']
